@@ -96,7 +96,9 @@ Checked == {"dateTime", "boolean", "integer", "nonNegativeInteger", "positiveInt
 \* digit-group underscores ("1_000"), digits of another script
 Lenient == {"multisign", "underscore", "otherdigits"}
 WrongOf(t) == CASE t = "dateTime" -> {"text", "badfields", "trailing", "dateonly"}
-                [] t = "boolean" -> {"text"}
+                \* pieces and concatenations of the four literals ("tru", "als", "truefalse", "01"): not literals themselves
+                \* (the validators compare case-insensitively -- "True" is left open)
+                [] t = "boolean" -> {"text", "prefix", "inner", "concat", "digits"}
                 [] t \in {"integer"} -> {"text", "fraction"} \cup Lenient
                 [] t = "nonNegativeInteger" -> {"text", "negative"} \cup Lenient
                 [] t = "positiveInteger" -> {"text", "zero"} \cup Lenient
